@@ -298,9 +298,150 @@ pub fn run_case(a: &Args, tag: &'static str, idx: u64, acc: &mut Acc) {
     acc.note("config_shapes", cfg.shape());
 }
 
+/// The same setter monitor through the async port (C15 leaves timestamps out because AsyncMemoryFS does not
+/// implement the setters; "not supported and changes nothing" is exactly what C19 demands of it).
+pub fn run_async_case(a: &Args, idx: u64, acc: &mut Acc) {
+    use crate::asyncside::{aat, abuild, awrite_tree, block_on};
+    let mut rng = Rng::derive(a.seed, "c19-async", idx);
+    let cfg = match rng.below(8) {
+        0 | 1 => Cfg::Mem,
+        2 => Cfg::Phys,
+        3 => Cfg::Alt(Box::new(Cfg::Mem), "/__alt/p".into()),
+        4 => Cfg::Alt(Box::new(Cfg::Phys), "/__alt".into()),
+        5 => Cfg::Ovl(vec![(Cfg::Mem, "".into()), (Cfg::Mem, "/__lay1".into())]),
+        6 => Cfg::Ovl(vec![(Cfg::Phys, "/__lay0".into()), (Cfg::Phys, "".into())]),
+        _ => Cfg::Alt(Box::new(Cfg::Ovl(vec![(Cfg::Phys, "".into()), (Cfg::Mem, "".into())])), "/__alt".into()),
+    };
+    let values: Vec<SystemTime> = if cfg.has_phys() { calibrated().clone() } else { candidates() };
+    if values.is_empty() {
+        return;
+    }
+    let sched: Vec<u8> = (0..rng.range(1, 6)).map(|_| rng.below(3) as u8).collect();
+    let ab = match guard(|| block_on(abuild(&cfg, vec![0]))) {
+        Ok(b) => b,
+        Err(_) => return,
+    };
+    let flen = *rng.pick(&[0usize, 1, 7, 300]);
+    let fbytes = rng.bytes(flen, false);
+    let mut tree = BTreeMap::new();
+    tree.insert("/d".to_string(), Node::Dir);
+    tree.insert("/d/f".to_string(), Node::File(fbytes.clone()));
+    tree.insert("/g".to_string(), Node::File(fbytes.clone()));
+    let lower_only = ab.layer_views.len() >= 2 && rng.chance(1, 2);
+    let prefix = if matches!(cfg, Cfg::Alt(..)) && lower_only { "/__alt" } else { "" };
+    let view = if lower_only { ab.layer_views[ab.layer_views.len() - 1].clone() } else { ab.root.clone() };
+    if guard(|| block_on(awrite_tree(&view, prefix, &tree))).map(|r| r.is_err()).unwrap_or(true) {
+        acc.count("async_setup_failed", 1);
+        return;
+    }
+    ab.ctl.set_schedule(sched.clone());
+    acc.evaluations += 1;
+    let where_ = if lower_only { "lower-only" } else { "upper" };
+    let mut log: Vec<String> = vec![];
+    let mk = |log: &Vec<String>| J::obj().set("tag", J::s("c19-async")).set("seed", J::i(a.seed)).set("history", J::i(idx)).set("config", J::s(format!("async {}", cfg.desc()))).set("placed", J::s(where_)).set("poll_schedule", J::s(format!("{:?}", sched))).set("trace", J::arr(log.iter().map(J::s)));
+    let amd = |p: &str| -> Result<VfsMetadata, String> {
+        let vp = aat(&ab.root, p);
+        match guard(|| block_on(vp.metadata())) {
+            Ok(r) => r.map_err(|e| format!("{:?}:{}", crate::ops::ErrInfo::from_vfs(&e).kind, e)),
+            Err(pi) => Err(format!("PANIC {}", pi.message)),
+        }
+    };
+    for step in 0..rng.range(3, 9) {
+        let p = *rng.pick(&["/d", "/d/f", "/g"]);
+        let field = rng.below(3);
+        let t = *rng.pick(&values);
+        let entry_kind = if p == "/d" { "dir" } else { "file" };
+        let order = idx * 100 + step as u64;
+        let sigbase = format!("set_{}|{}|{}|{}|async", FIELD[field], entry_kind, where_, cfg.family());
+        let before = match amd(p) {
+            Ok(m) => m,
+            Err(e) => {
+                acc.violate(Violation { property: "C19", signature: format!("metadata-failed|{}|{}|{}|async", entry_kind, where_, cfg.family()), summary: format!("async metadata({}) failed on an existing entry: {}", p, e), detail: mk(&log), order });
+                return;
+            }
+        };
+        let vp = aat(&ab.root, p);
+        let res = guard(|| {
+            block_on(async {
+                match field {
+                    0 => vp.set_creation_time(t).await,
+                    1 => vp.set_modification_time(t).await,
+                    _ => vp.set_access_time(t).await,
+                }
+            })
+        });
+        let after = amd(p);
+        log.push(format!("async set_{}_time({}, {:?}) => {:?}", FIELD[field], p, t, res.as_ref().map(|r| r.as_ref().map_err(|e| e.to_string())).map_err(|pi| pi.message.clone())));
+        acc.steps += 1;
+        let res = match res {
+            Err(pi) => {
+                acc.violate(Violation { property: "C13", signature: format!("panic|async-set_{}_time|{}|{}|{}", FIELD[field], entry_kind, pi.head(), pi.file()), summary: format!("async setter panicked: {}", pi.message), detail: mk(&log), order });
+                return;
+            }
+            Ok(r) => r,
+        };
+        let after = match after {
+            Ok(m) => m,
+            Err(e) => {
+                acc.violate(Violation { property: "C19", signature: format!("entry-lost|{}", sigbase), summary: format!("after the async setter metadata({}) fails: {}", p, e), detail: mk(&log), order });
+                return;
+            }
+        };
+        let (tb, ta) = (times(&before), times(&after));
+        let same_shape = before.file_type == after.file_type && before.len == after.len;
+        acc.cell(format!("{}|{}", sigbase, if res.is_ok() { "Ok" } else { "Err" }));
+        acc.fingerprints.insert(Rng::derive(field as u64 + 10, &sigbase, t.duration_since(SystemTime::UNIX_EPOCH).map(|d| d.as_nanos() as u64).unwrap_or(7)).0);
+        match &res {
+            Ok(()) => {
+                if ta[field] != Some(t) {
+                    acc.violate(Violation { property: "C19", signature: format!("not-round-tripped|{}", sigbase), summary: format!("async set_{}_time({}, {:?}) returned Ok but metadata reports {:?}", FIELD[field], p, t, ta[field]), detail: mk(&log), order });
+                }
+                for o in 0..3 {
+                    if o != field && ta[o] != tb[o] {
+                        acc.violate(Violation { property: "C19", signature: format!("other-field-changed:{}|{}", FIELD[o], sigbase), summary: format!("async set_{}_time({}) changed {} from {:?} to {:?}", FIELD[field], p, FIELD[o], tb[o], ta[o]), detail: mk(&log), order });
+                    }
+                }
+                if !same_shape {
+                    acc.violate(Violation { property: "C19", signature: format!("shape-changed|{}", sigbase), summary: format!("async set_{}_time({}) changed type/len", FIELD[field], p), detail: mk(&log), order });
+                }
+            }
+            Err(e) => {
+                let k = crate::ops::ErrInfo::from_vfs(e).kind;
+                if k != crate::ops::Kind::NotSupported {
+                    acc.violate(Violation { property: "C19", signature: format!("setter-failed:{}|{}", k.name(), sigbase), summary: format!("async set_{}_time({}) on an existing {} ({}) failed with {} instead of succeeding or reporting not-supported: {}", FIELD[field], p, entry_kind, where_, k.name(), e), detail: mk(&log), order });
+                }
+                if ta != tb || !same_shape {
+                    acc.violate(Violation { property: "C19", signature: format!("failed-setter-changed|{}", sigbase), summary: format!("async set_{}_time({}) failed yet metadata changed from {:?} to {:?}", FIELD[field], p, tb, ta), detail: mk(&log), order });
+                }
+            }
+        }
+    }
+    // bytes are independent of the timestamps
+    for p in ["/d/f", "/g"] {
+        let vp = aat(&ab.root, p);
+        let got = guard(|| {
+            block_on(async {
+                use async_std::io::ReadExt;
+                let mut r = vp.open_file().await.map_err(|e| e.to_string())?;
+                let mut v = vec![];
+                r.read_to_end(&mut v).await.map_err(|e| e.to_string())?;
+                Ok::<Vec<u8>, String>(v)
+            })
+        });
+        if !matches!(&got, Ok(Ok(v)) if v == &fbytes) {
+            acc.violate(Violation { property: "C19", signature: format!("bytes-changed|{}|{}|async", where_, cfg.family()), summary: format!("after the async timestamp operations {} no longer reads its {} bytes", p, fbytes.len()), detail: mk(&log), order: idx * 100 });
+        }
+    }
+    if idx < 2 {
+        acc.sample(1000 + idx, J::obj().set("async_case", J::i(idx)).set("config", J::s(format!("async {}", cfg.desc()))).set("placed", J::s(where_)).set("trace", J::arr(log.iter().map(J::s))));
+    }
+    acc.count("async_cases", 1);
+}
+
 pub fn run(a: &Args) -> Acc {
     let n = a.n(80000, 600000);
     let mut acc = par_run(a, "c19", n, |a, idx, acc| run_case(a, "c19", idx, acc));
+    acc.merge(par_run(a, "c19-async", a.n(4000, 40000), run_async_case));
     acc.note("calibrated_physical_values", format!("{} of {} candidate values round-trip on the host filesystem", calibrated().len(), candidates().len()));
     acc
 }
